@@ -21,7 +21,7 @@ import tempfile
 import time
 
 VERIF = os.path.dirname(os.path.dirname(os.path.abspath(__file__)))
-HARNESS = os.path.join(VERIF, "harness")
+HARNESS = os.environ.get("VERIF_HARNESS") or os.path.join(VERIF, "harness")  # VERIF_HARNESS: a frozen copy of the harness sources (sensitivity runs)
 REPO = os.environ.get("VERIF_REPO", "/repo")
 GO125 = "/root/go/pkg/mod/golang.org/toolchain@v0.0.1-go1.25.0.linux-amd64/bin/go"
 NCPU = os.cpu_count() or 4
